@@ -151,7 +151,7 @@ func DrawConfig(rt *rapid.T, p *Profile) Config {
 			o.ScaleOnStarve = rapid.IntRange(0, 3).Draw(rt, "starve") == 0
 		}
 		if p.MaxAge == 1 {
-			o.MaxNodeAge = rapid.SampledFrom([]string{"", "", "", "0", "1h", "600s"}).Draw(rt, "maxNodeAge")
+			o.MaxNodeAge = rapid.SampledFrom([]string{"", "", "", "0", "1h", "600s", "-1h", "-1s"}).Draw(rt, "maxNodeAge") // a negative duration passes validation and means "off", like 0
 		}
 		fleet := p.Fleet == 2 || (p.Fleet == 1 && rapid.IntRange(0, 3).Draw(rt, "fleet") == 0) || (p.Fleet == 3 && rapid.Bool().Draw(rt, "fleet"))
 		if fleet {
@@ -686,6 +686,69 @@ func (w *World) DrawAction(rt *rapid.T, p *Profile) (Action, string) {
 		return Action{Op: "clearPods", Group: g}, "clearPods"
 	case "zeroOut":
 		return Action{Op: "zeroOut", Group: g}, "zeroOut"
+	case "lagLookup": // a scale-up, the new nodes register, and the first scan after the cool-down looks them up in the cloud - which answers oddly for one of them
+		o := &w.Cfg.Groups[g].Opts
+		if cd := Dur(o.ScaleUpCoolDownPeriod); cd > 0 {
+			tp, _ := w.drawTargetPods(rt, g, "aboveS", "farAboveS")
+			f := sim.Fault{Kind: sim.ADescribeInst, Nth: rapid.IntRange(0, 2).Draw(rt, "nth"), Count: rapid.SampledFrom([]int{1, 1, 2, 5}).Draw(rt, "count"),
+				Code: rapid.SampledFrom([]string{"InvalidInstanceID.NotFound", "InvalidInstanceID.NotFound", "InvalidInstanceID.Malformed", "", "Throttling", "shape:no-reservation", "shape:empty-reservation"}).Draw(rt, "code")}
+			return Action{Op: "seq", Seq: []Action{tp, {Op: "scan", Flag: true}, {Op: "reconcile", Group: g}, {Op: "register", Group: g},
+				{Op: "advance", D: cd + time.Second}, {Op: "fault", Faults: []sim.Fault{f}}, {Op: "scan", Flag: true}, {Op: "scan", Flag: true}}}, "lagLookup"
+		}
+	case "goneTaintedBelowMin": // inside a cool-down the group drops below its minimum with tainted nodes around; one of them is deleted before the node cache notices; the first scan after the cool-down recovers
+		o := &w.Cfg.Groups[g].Opts
+		var untainted []string
+		for _, n := range w.GroupNodeNames(g) {
+			if ref.Classify(w.K.Nodes[n]) == ref.Untainted {
+				untainted = append(untainted, n)
+			}
+		}
+		floor := maxInt(o.MinNodes, int(w.ASG(g).Min))
+		if cd := Dur(o.ScaleUpCoolDownPeriod); cd > 0 && floor > 0 && len(untainted) >= floor {
+			k := len(untainted) - floor + rapid.IntRange(1, 2).Draw(rt, "below")
+			if k > len(untainted) {
+				k = len(untainted)
+			}
+			picked := untainted[len(untainted)-k:]
+			tp, _ := w.drawTargetPods(rt, g, "aboveS", "farAboveS")
+			seq := []Action{tp, {Op: "scan", Flag: true}}
+			for _, n := range picked {
+				seq = append(seq, Action{Op: "taint", Node: n, Key: ref.TaintKey, Val: fmt.Sprint(time.Now().Unix()), Effect: "NoSchedule", Flag: true})
+			}
+			seq = append(seq, Action{Op: "scan", Flag: true}, Action{Op: "killNode", Node: rapid.SampledFrom(picked).Draw(rt, "gone")},
+				Action{Op: "advance", D: cd + time.Second}, Action{Op: "scan", Flag: false}, Action{Op: "scan", Flag: true})
+			return Action{Op: "seq", Seq: seq}, "goneTaintedBelowMin"
+		}
+	case "onlyCordonedLeft": // every node still in service is cordoned; some others may be on their way out; pods wait (or not)
+		names := w.GroupNodeNames(g)
+		if len(names) > 0 && len(names) <= 12 {
+			tp, _ := w.drawTargetPods(rt, g, "zero", "aboveS", "aboveS", "farAboveS")
+			var seq []Action
+			for i, n := range names {
+				if ref.Classify(w.K.Nodes[n]) != ref.Untainted {
+					continue
+				}
+				if i > 0 && rapid.IntRange(0, 3).Draw(rt, "taintInstead") == 0 {
+					seq = append(seq, Action{Op: "taint", Node: n, Key: ref.TaintKey, Val: fmt.Sprint(time.Now().Unix()), Effect: "NoSchedule", Flag: true})
+				} else {
+					seq = append(seq, Action{Op: "cordon", Node: n, Flag: true})
+				}
+			}
+			seq = append(seq, tp, Action{Op: "scan", Flag: true}, Action{Op: "scan", Flag: true})
+			return Action{Op: "seq", Seq: seq}, "onlyCordonedLeft"
+		}
+	case "relabel": // a node is moved out of its pool by label (and later back), the object and its name stay
+		names := w.GroupNodeNames(g)
+		o := &w.Cfg.Groups[g].Opts
+		if len(names) > 0 {
+			n := rapid.SampledFrom(names).Draw(rt, "node")
+			off := Action{Op: "relabel", Node: n, Key: o.LabelKey, Val: rapid.SampledFrom([]string{"zzz-retired", "", "zzz-" + o.LabelValue}).Draw(rt, "newValue"), Flag: rapid.IntRange(0, 3).Draw(rt, "dropKey") == 0}
+			seq := []Action{{Op: "scan", Flag: true}, off, {Op: "scan", Flag: true}}
+			if rapid.Bool().Draw(rt, "andBack") {
+				seq = append(seq, Action{Op: "relabel", Node: n, Key: o.LabelKey, Val: o.LabelValue}, Action{Op: "scan", Flag: true})
+			}
+			return Action{Op: "seq", Seq: seq}, "relabel"
+		}
 	case "bulk", "bulkAnd": // the same environment change on many nodes of the group at once (bulkAnd: plus one node treated differently, then a scan)
 		names := w.GroupNodeNames(g)
 		if len(names) > 0 {
@@ -1209,7 +1272,7 @@ func (w *World) drawFault(rt *rapid.T) Action {
 }
 
 // cloudErrorCodes are AWS error codes an injected cloud failure may carry ("" = InternalFailure).
-var cloudErrorCodes = []string{"", "", "shape:no-reservation", "shape:empty-reservation", "Throttling", "RequestLimitExceeded", "ThrottlingException", "ValidationError", "ServiceUnavailable", "RequestExpired"}
+var cloudErrorCodes = []string{"", "", "shape:no-reservation", "shape:empty-reservation", "Throttling", "RequestLimitExceeded", "ThrottlingException", "ValidationError", "ServiceUnavailable", "RequestExpired", "InvalidInstanceID.NotFound", "InvalidInstanceID.Malformed", "AccessDenied", "ResourceContention", "ScalingActivityInProgress"}
 
 func maxInt(a, b int) int {
 	if a > b {
